@@ -52,15 +52,16 @@ Definition table_of_rangevar (rv : node) : tname :=
 Definition data_type (q : qname) : string :=
   if String.eqb (q_schema q) "" then q_name q else q_schema q +++ "." +++ q_name q.
 
-(** to_column.go toColumn: ParseTypeName must succeed (1..3 name parts), else panic *)
+(** to_column.go toColumn: ParseTypeName must succeed (1..3 name parts), else an error
+    (a panic before /repo cb978d6) *)
 Definition to_column (tn : node) : result qcol :=
-  if is_nil tn then Panic "toColumn: nil type name" else
+  if is_nil tn then Err "can't build column for nil type name" else
   let parts := string_items (kid "Names" tn) in
   match parts with
   | [_] | [_; _] | [_; _; _] =>
       Ok (mkQC "" (trim_prefix (String.concat "." parts) ".") true
                (negb (Nat.eqb (List.length (kid_items "ArrayBounds" tn)) 0)) "" None)
-  | _ => Panic "toColumn: invalid name"
+  | _ => Err "invalid type name"
   end.
 
 (** * find_params.go *)
